@@ -128,8 +128,8 @@ Definition strict_then_validate (t : tables) (v : str) (text : str) : option (bo
   | Err _ => None
   end.
 
-(* F14: the open-ended QPD of v2.5 admits QPD_5 under STRICT, the validator calls it an invalid child;
-   the Z-segment Z0X admits the field Z0X_1, which is not a Z-field name: "Invalid element found" *)
+(* F14: the open-ended QPD of v2.5 accepts QPD_5 under STRICT, the validator calls it an invalid child;
+   the Z-segment Z0X accepts the field Z0X_1, which is not a Z-field name: "Invalid element found" *)
 Lemma strict_witnesses :
   strict_then_validate Gen.Tables_v2_5.tables "2.5" "QPD|a||q||beyond" = Some (false, false) /\
   strict_then_validate Gen.Tables_v2_5.tables "2.5" "Z0X|a" = Some (false, false) /\
